@@ -2,14 +2,14 @@
 //
 // Cases for the model (driver drv_tplfront):
 //
-//	tplnew <eofpos>;<real tokens>;<scanner error count>;<real strconv results per literal>
+//	tplnew <eofpos>;<real tokens>;<token indices of the scanner's errors>;<real strconv results per literal>
 //	    impl = outcome of the REAL tpl.New(src) (PARSEERR | ok | NODOC | err <classes> | PANIC) followed by
 //	    the conflicts cl.NewEx reports to an OnConflict recorder (i/at/firsts[i]/firsts[at])
 //	tplcl  <eofpos>;<real tokens>;<real strconv results>
 //	    impl = outcome of the real cl.NewEx on the parser's tree EVEN IF the parser reported errors
 //	    (never done by tpl.New; exercises the panic branches of the model; no oracle)
 //
-//	tplnewex <eofpos>;<real tokens>;<scanner error count>;<strconv results>;<srcOk>
+//	tplnewex <eofpos>;<real tokens>;<scanner error indices>;<strconv results>;<srcOk>
 //	    impl = dynamic type of the error returned by the real tpl.NewEx(src, "f.tpl", line, col) (after
 //	    Relocate) " / " the one returned by the real tpl.FromFile(nil, "", src, nil); src is given as string,
 //	    []byte, io.Reader, *bytes.Buffer, and as unreadable sources (nil *bytes.Buffer, an int, a failing
@@ -254,7 +254,7 @@ func newExRecorded(src []byte, sc *tf.Scanned, ignoreParseErrors bool) string {
 
 func newCase(src string, tag string) {
 	sc := tf.Scan([]byte(src))
-	line := fmt.Sprintf("tplnew\t%s;%d;%s", sc.TokField(), sc.ScanErrs, unqField(&sc))
+	line := fmt.Sprintf("tplnew\t%s;%s;%s", sc.TokField(), sc.ErrAtField(), unqField(&sc))
 	setCurrent(line, src)
 	a := guarded(func() string {
 		_, err := tpl.New(src)
@@ -352,7 +352,7 @@ var newExCount int
 func newExCase(src string, variant int) {
 	sc := tf.Scan([]byte(src))
 	_, ok := srcVariant(src, variant)
-	line := fmt.Sprintf("tplnewex\t%s;%d;%s;%d", sc.TokField(), sc.ScanErrs, unqField(&sc), b2i(ok))
+	line := fmt.Sprintf("tplnewex\t%s;%s;%s;%d", sc.TokField(), sc.ErrAtField(), unqField(&sc), b2i(ok))
 	setCurrent(line, src)
 	newExCount++
 	lc := lineCols[newExCount%len(lineCols)]
